@@ -85,6 +85,27 @@ func (x *Exec) callFunc(fr *frame, st *State, callee *ssa.Function, args []Value
 		x.Notes.Inlined[q] = true
 		return x.inline(st, callee, args, bindings)
 	}
+	if x.onStack(callee) && x.Opt.Paths && x.Opt.MaxRec > 0 && callee.Blocks != nil {
+		// bounded recursion (path mode): inline up to MaxRec nested activations; deeper
+		// recursion must be unreachable (unwinding assertion) or is cut (bounded)
+		depth := 0
+		for _, f := range x.stack {
+			if f == callee {
+				depth++
+			}
+		}
+		if depth < x.Opt.MaxRec {
+			x.Notes.Inlined[q] = true
+			return x.inline(st, callee, args, bindings)
+		}
+		if x.Opt.UnwindMust {
+			x.addObl(st, "unwind", "recursion."+callee.Name(), x.C.False(), pos, fmt.Sprintf("%s does not recurse deeper than %d activations", q, x.Opt.MaxRec))
+		} else {
+			x.Notes.Bounds[fmt.Sprintf("%s: recursion cut at depth %d", q, x.Opt.MaxRec)] = true
+		}
+		st.PC = x.C.False()
+		return x.freshResult(st, q, resT)
+	}
 	if x.onStack(callee) {
 		panic(unsupported("recursive call of " + q + " without a contract"))
 	}
